@@ -361,7 +361,7 @@ Proof.
               (RSumAlong (a + 1) a (Z.of_nat dim)) gA (Some gA) HC)%nat as (hhD & EpD & HD);
     [nlia|upd_eq; reflexivity|exact E1|exact T0|nlia|reflexivity|exact EgA|upd_eq; rewrite I0; reflexivity|].
   (* ---- 5. b1 = Broadcast(ex): factor 1 ---- *)
-  destruct (acc1_R thr draw ds (Some gA) g3 (conj WgA ltac:(congruence)) Wg3 ltac:(congruence)) as (sE & EsE & WsE & DsE & GsE).
+  destruct (acc1_R thr draw ds (Some gA) g3 (conj WgA (eq_trans DgA Dex)) Wg3 (eq_trans Dg3 Dsub)) as (sE & EsE & WsE & DsE & GsE).
   destruct (node_run1 rd h1 _ hhD ((a + 1, g1) :: (a + 2, g2) :: (a + 4, g4) :: (a + 5, gy) :: log)%nat (a + 3) g3 a
               (RBroadcast (a + 3) a) g3 (Some sE) HD)%nat as (hhE & EpE & HE);
     [nlia|upd_eq; reflexivity|exact E3|exact T0|nlia|reflexivity| |upd_eq; exact EsE|].
